@@ -388,6 +388,11 @@ fn replay_edited_image(reg: &dyn Registry, r: &Value) -> i32 {
         println!("  the image does not deserialise");
         return 0;
     };
+    // optional first stage: advance G' (and its twin) before the snapshot
+    for op in ops_of(&r["advance_first"]) {
+        let _ = apply(&mut gp, &op);
+        let _ = apply(&mut twin, &op);
+    }
     let Some(bytes) = gp.ser() else { return 2 };
     let mut rr = match ty.de(&bytes) {
         Some(Ok(x)) => x,
